@@ -209,6 +209,8 @@ def page_case(draw):
     return {"tree": tree, "path": path, "width": width, "ansi": draw(st.booleans()), "via_run": draw(st.booleans())}
 
 
+HYP = {"page": (lambda ctx: page_case(), check_page)}
+
 def run(ctx):
     quick = ctx.tier == "quick"
-    ctx.hyp(page_case(), lambda c: check_page(ctx, c), 1200 if quick else 30000, salt=1)
+    ctx.hyp_sharded("page", 6000 if quick else 60000, salt=1)
